@@ -7,6 +7,7 @@ import (
 	"math/rand"
 	"sort"
 	"strconv"
+	"strings"
 
 	"verifharness/sx"
 )
@@ -895,6 +896,27 @@ func varValue(r *rand.Rand, s *gSchema, t gTy) sx.S {
 	return scalarValue(r, s, t)
 }
 
+// wrongVarValue: a value of another kind than the variable's type (only combinations every
+// implementation of the scalars refuses: a non-numeric string for Int, a value that is not a member
+// for an enum, a scalar for a list)
+func wrongVarValue(r *rand.Rand, s *gSchema, t gTy) sx.S {
+	in := t
+	if in.kind == 'N' {
+		in = *in.of
+	}
+	if in.kind == 'l' {
+		return sx.L("i", sx.A(5))
+	}
+	tt := s.byID[in.id]
+	switch {
+	case tt.kind == "enum":
+		return sx.L("e", sx.A(9))
+	case tt.leaf == "int":
+		return sx.L("s", sx.A(r.Intn(9)))
+	}
+	return nil
+}
+
 func genExecCase(r *rand.Rand, p *profile, id string) Case {
 	s := genSchema(r)
 	g := genGraph(r, s, p)
@@ -964,6 +986,14 @@ func genExecCase(r *rand.Rand, p *profile, id string) Case {
 		}
 		vs := []sx.S{"vars"}
 		for _, v := range oi.vars {
+			if !genCommon && p.defect == "" && chance(r, 0.04) {
+				// a value the declared type of the variable cannot take: the call fails at the variable
+				if w := wrongVarValue(r, s, v.ty); w != nil {
+					vs = append(vs, sx.L(sx.A(v.name), w))
+					d.feats["variable-value-not-coercible"] = true
+					continue
+				}
+			}
 			if chance(r, 0.6) {
 				vs = append(vs, sx.L(sx.A(v.name), varValue(r, s, v.ty)))
 			} else if v.dflt == "-" {
@@ -1076,10 +1106,110 @@ func execGen(prof profile, quick, thorough int) func(r *rand.Rand, tier string) 
 		var cases []Case
 		for i := 0; i < n; i++ {
 			p := prof
+			if i%25 == 24 {
+				cases = append(cases, genArgsAcrossTypes(r, "x"+strconv.Itoa(i), prof.calls))
+				continue
+			}
 			cases = append(cases, genExecCase(r, &p, "g"+strconv.Itoa(i)))
 		}
 		return cases
 	}
+}
+
+// genArgsAcrossTypes: one selection evaluated in several object types that declare different
+// arguments for the field - members of a union reached through an untyped inline fragment, a
+// fragment on the union, or the bare field - over a list that mixes the members in a random order.
+// What each element yields depends on its own type only: an error where its type does not declare
+// a supplied argument or misses a required one, the resolver's value elsewhere.
+func genArgsAcrossTypes(r *rand.Rand, id string, calls int) Case {
+	leaves := "(leaf 10 int) (leaf 11 string) (leaf 12 bool) (leaf 13 id) (leaf 14 float)"
+	nm := 2 + r.Intn(2) // member types 20..
+	argSets := make([][]int, nm)
+	reqd := make([]map[int]bool, nm)
+	var types, strat, members []string
+	for m := 0; m < nm; m++ {
+		reqd[m] = map[int]bool{}
+		var as []string
+		for a := 1; a <= 3; a++ {
+			if r.Intn(2) == 0 {
+				argSets[m] = append(argSets[m], a)
+				t := "(n 10)"
+				if r.Intn(4) == 0 {
+					t = "(nn (n 10))"
+					reqd[m][a] = true
+				}
+				as = append(as, fmt.Sprintf("(a %d %s)", a, t))
+			}
+		}
+		types = append(types, fmt.Sprintf("(obj %d (fields (f 2 (n 10) (args %s)) (f 3 (n 10) (args))) (ifaces))", 20+m, strings.Join(as, " ")))
+		strat = append(strat, fmt.Sprintf("(%d %s)", 20+m, []string{"R", "A"}[r.Intn(2)]))
+		members = append(members, strconv.Itoa(20+m))
+	}
+	types = append(types, "(union 29 (members "+strings.Join(members, " ")+"))", "(obj 1 (fields (f 5 (l (n 29)) (args)) (f 6 (n 29) (args))) (ifaces))")
+	strat = append(strat, "(1 R)")
+	// nodes 2.. one per member plus repeats, in a random order in the list
+	var nodes, elems []string
+	nn := nm + r.Intn(3)
+	for i := 0; i < nn; i++ {
+		m := i % nm
+		if i >= nm {
+			m = r.Intn(nm)
+		}
+		nodes = append(nodes, fmt.Sprintf("(node %d %d (field 2 (const (int %d))) (field 3 (const (int %d))))", 2+i, 20+m, 100+i, 200+i))
+		elems = append(elems, fmt.Sprintf("(node %d)", 2+i))
+	}
+	r.Shuffle(len(elems), func(i, j int) { elems[i], elems[j] = elems[j], elems[i] })
+	nodes = append(nodes, fmt.Sprintf("(node 1 1 (field 5 (const (list %s))) (field 6 (const %s)))", strings.Join(elems, " "), elems[r.Intn(len(elems))]))
+	// the selection: a random subset of the arguments 1..3, literal or variable
+	var args, vars, vvals []string
+	for a := 1; a <= 3; a++ {
+		if r.Intn(2) == 0 {
+			if r.Intn(3) == 0 {
+				vars = append(vars, fmt.Sprintf("(v %d (n 10) -)", a))
+				vvals = append(vvals, fmt.Sprintf("(%d (i %d))", a, r.Intn(50)))
+				args = append(args, fmt.Sprintf("(a %d (v %d))", a, a))
+			} else {
+				args = append(args, fmt.Sprintf("(a %d (i %d))", a, r.Intn(50)))
+			}
+		}
+	}
+	r.Shuffle(len(args), func(i, j int) { args[i], args[j] = args[j], args[i] })
+	alias := "-"
+	if r.Intn(3) == 0 {
+		alias = strconv.Itoa(1 + r.Intn(12))
+	}
+	field := fmt.Sprintf("(f 10 %s 2 (args %s) (dirs))", alias, strings.Join(args, " "))
+	sibling := "(f 11 - 3 (args) (dirs))"
+	frags := "(frags)"
+	var under string
+	switch r.Intn(4) {
+	case 0:
+		under = "(in 12 - (dirs) " + field + " " + sibling + ")"
+	case 1:
+		under = "(in 12 29 (dirs) " + field + ") " + sibling
+	case 2:
+		under = "(fr 12 1 (dirs)) " + sibling
+		frags = "(frags (frag 1 29 " + field + "))"
+	default:
+		under = field + " " + sibling
+	}
+	which := []string{"5", "6", "5"}[r.Intn(3)]
+	sel := fmt.Sprintf("(f 13 - %s (args) (dirs) %s)", which, under)
+	if r.Intn(3) == 0 {
+		sel += fmt.Sprintf(" (f 14 9 %s (args) (dirs) %s)", []string{"5", "6"}[r.Intn(2)], strings.ReplaceAll(strings.ReplaceAll(strings.ReplaceAll(strings.ReplaceAll(under, "(f 10 ", "(f 20 "), "(f 11 ", "(f 21 "), "(in 12 ", "(in 22 "), "(fr 12 ", "(fr 22 "))
+	}
+	var cs []string
+	if calls < 1 {
+		calls = 1
+	}
+	for c := 0; c < 1+r.Intn(calls); c++ {
+		cs = append(cs, "(call - (vars "+strings.Join(vvals, " ")+"))")
+	}
+	text := fmt.Sprintf("(exec (schema %s %s) (strat %s) (graph %s) (root 1 -1) (any 1) (doc (ops (op query - (vars %s) %s)) %s) (calls %s))",
+		leaves, strings.Join(types, " "), strings.Join(strat, " "), strings.Join(nodes, " "), strings.Join(vars, " "), sel, frags, strings.Join(cs, " "))
+	input := mustParse(text)
+	human, _ := docText(sx.List(input)[6].([]sx.S)[1:])
+	return Case{ID: id, Input: input, Tags: []string{"arguments-across-container-types", "argument", "abstract-field", "list", "nontrivial"}, Human: human}
 }
 
 var profC06 = profile{pFail: 0.22, pIll: 0.1, pDir: 0.1, pAlias: 0.3, pFrag: 0.12, pInline: 0.12, pArgs: 0.8, pAny: 0.5, pBadCall: 0.05, pNullObj: 0.05, maxDepth: 4, calls: 1}
